@@ -382,12 +382,70 @@ func (e *Engine) fieldReassigned(t types.Type, f string) bool {
 				if freshLocalPointer(fa.X) {
 					continue // x := &T{...}; x.f = ...  (x only ever holds objects allocated here)
 				}
+				if e.declaredInitOnly(t, f) {
+					if c := e.contractOf(fn); c != nil && !c.Trusted && !c.Inline {
+						// a store the syntactic test cannot classify, inside a function that
+						// is verified: decided path-sensitively there (checkInitOnlyStore:
+						// the object must be one the function allocated, or the path infeasible)
+						continue
+					}
+				}
 				res = true
 			}
 		}
 	}
 	e.reassignCache[key] = res
 	return res
+}
+
+// declaredInitOnly: is T.f listed in an `initonly` declaration of its package?
+func (e *Engine) declaredInitOnly(t types.Type, f string) bool {
+	n, ok := t.(*types.Named)
+	if !ok || n.Obj().Pkg() == nil {
+		return false
+	}
+	ps := e.specs[n.Obj().Pkg().Path()]
+	if ps == nil {
+		return false
+	}
+	want := n.Obj().Name() + "." + f
+	for _, tf := range ps.InitOnly {
+		if tf == want {
+			return true
+		}
+	}
+	return false
+}
+
+// checkInitOnlyStore: a store to a declared init-only field that the syntactic
+// construction test does not recognise, met while verifying a function: the
+// object written must have been allocated by this function (before publication).
+// On a path that cannot be taken the obligation holds vacuously.
+func (e *Engine) checkInitOnlyStore(st *State, ins *ssa.Store, p PtrV) {
+	if e.cur == nil || e.cur.entry == nil {
+		return
+	}
+	fa, ok := ins.Addr.(*ssa.FieldAddr)
+	if !ok {
+		return
+	}
+	bt := fa.X.Type().Underlying().(*types.Pointer).Elem()
+	stt, ok := bt.Underlying().(*types.Struct)
+	if !ok {
+		return
+	}
+	f := stt.Field(fa.Field).Name()
+	if !e.declaredInitOnly(bt, f) {
+		return
+	}
+	if _, isAlloc := fa.X.(*ssa.Alloc); isAlloc || freshLocalPointer(fa.X) {
+		return
+	}
+	if p.Cell != 0 || p.Global != nil {
+		return
+	}
+	n := bt.(*types.Named)
+	e.oblige(st, "initonly", n.Obj().Name()+"."+f+".stored_only_before_publication", Le(e.cur.entry.nextRefTerm(), p.Ref), ins.Pos())
 }
 
 // freshLocalPointer: v is the load of a local variable that is only ever
